@@ -13,7 +13,7 @@ from . import elf, real, refline, stream
 OBJDUMP = shutil.which("objdump")
 AS = shutil.which("as")
 
-SECTION_NAMES = [".text", ".init", ".fini", ".plt", ".plt.got", "my.sec", ".text.hot", "CODE", ".t"]
+SECTION_NAMES = [".text", ".init", ".fini", ".plt", ".plt.got", "my.sec", ".text.hot", "CODE", ".t", ".text$mn", "_ZN4core3fmt$LT$x$GT$", "sec with blank", ".text'q"]
 
 
 def random_object(rng: random.Random, bits: Optional[int] = None, nsec: Optional[int] = None, size=(300, 3000), data_sections=True):
@@ -30,6 +30,10 @@ def random_object(rng: random.Random, bits: Optional[int] = None, nsec: Optional
             addr = max(0x1000, addr - 0x300000)  # a later section may sit at a lower address
     if data_sections and rng.random() < 0.6:
         secs.append(elf.Section(".data", elf.random_code(rng, rng.randint(16, 200)), addr + 0x10000, False))
+        if rng.random() < 0.15:
+            # a damaged but readable sample: a NON-code section claims more bytes than the file holds (objdump warns on stderr, exits 0 and
+            # prints the complete disassembly)
+            secs[-1].claimed_size = len(secs[-1].data) + 0x100000
     rng.shuffle(secs)
     syms = None
     if rng.random() < 0.7:
